@@ -205,6 +205,110 @@ fn run_frames(c: &FramesCase) -> CaseResult {
     }
 }
 
+// ------------------------------------------------------------------------------------------
+// positional insertion racing with a removal
+
+#[derive(Debug, Clone, Serialize, Deserialize)]
+pub struct PlaceCase {
+    bars: u8,
+    /// 0 insert_from_back(k), 1 insert(k)
+    how: u8,
+    k: u8,
+    /// index of the bar another thread removes meanwhile
+    victim: u8,
+    seed: u64,
+    schedules: u32,
+    pct_depth: Option<u8>,
+}
+
+/// Whichever of the two calls takes effect first, the resulting order is one of the two serial orders.
+fn body_place(c: &PlaceCase) {
+    let n = c.bars.clamp(2, 4) as usize;
+    let spy = FrameSpy::default();
+    let mp = MultiProgress::with_draw_target(ProgressDrawTarget::term_like(Box::new(spy.clone())));
+    let mk = |t: usize| {
+        let pb = ProgressBar::with_draw_target(Some(1000), ProgressDrawTarget::hidden());
+        pb.set_style(ProgressStyle::with_template(&format!("T{t}:{{pos}}:{{msg}}")).unwrap());
+        pb.set_message("0");
+        pb
+    };
+    let bars: Vec<ProgressBar> = (0..n).map(|t| mp.add(mk(t))).collect();
+    for b in &bars {
+        b.tick();
+    }
+    let victim = c.victim as usize % n;
+    let k = c.k as usize % (n + 1);
+    // the two serial orders
+    let insert_into = |mut order: Vec<usize>| {
+        let len = order.len();
+        let at = if c.how % 2 == 0 { len.saturating_sub(k) } else { k.min(len) };
+        order.insert(at, 9);
+        order
+    };
+    let all: Vec<usize> = (0..n).collect();
+    let removed_first = insert_into(all.iter().copied().filter(|t| *t != victim).collect());
+    let inserted_first: Vec<usize> = insert_into(all.clone()).into_iter().filter(|t| *t != victim).collect();
+    let (mp2, v) = (mp.clone(), bars[victim].clone());
+    let h1 = shuttle::thread::spawn(move || mp2.remove(&v));
+    let (mp3, how) = (mp.clone(), c.how);
+    let newbar = mk(9);
+    let h2 = shuttle::thread::spawn(move || {
+        let pb = if how % 2 == 0 { mp3.insert_from_back(k, newbar) } else { mp3.insert(k, newbar) };
+        pb.tick();
+        pb
+    });
+    h1.join().expect("remover panicked");
+    let nb = h2.join().expect("inserter panicked");
+    nb.force_draw();
+    let frames = spy.frames.lock().unwrap().clone();
+    let last: Vec<usize> = frames.last().cloned().unwrap_or_default().iter().map(|l| l[1..].split(':').next().unwrap().parse().expect("tag")).collect();
+    assert!(
+        last == removed_first || last == inserted_first,
+        "FRAMES: {} of a new bar (T9) among T0..T{} raced with remove(T{victim}): the last frame shows the order {last:?}; removal first gives {removed_first:?}, insertion first gives {inserted_first:?}",
+        if c.how % 2 == 0 { format!("insert_from_back({k})") } else { format!("insert({k})") },
+        n - 1
+    );
+}
+
+fn run_place(c: &PlaceCase) -> CaseResult {
+    let case = Arc::new(c.clone());
+    let mut cfg = shuttle::Config::new();
+    cfg.failure_persistence = shuttle::FailurePersistence::None;
+    cfg.max_steps = shuttle::MaxSteps::FailAfter(500_000);
+    let iters = c.schedules.max(1) as usize;
+    let c2 = case.clone();
+    let r = catch(move || match c2.pct_depth {
+        Some(d) => shuttle::Runner::new(PctScheduler::new_from_seed(c2.seed, d.clamp(1, 5) as usize, iters), cfg).run({
+            let c3 = c2.clone();
+            move || body_place(&c3)
+        }),
+        None => shuttle::Runner::new(RandomScheduler::new_from_seed(c2.seed, iters), cfg).run({
+            let c3 = c2.clone();
+            move || body_place(&c3)
+        }),
+    });
+    match r {
+        Ok(_) => {
+            let mut v = Verdict::default();
+            v.nontrivial = true;
+            v.label("placement_schedules_explored");
+            v.label_if(c.how % 2 == 0, "insert_from_back_races_with_remove");
+            v.label_if(c.how % 2 == 1, "insert_at_index_races_with_remove");
+            Ok(v)
+        }
+        Err(msg) => {
+            let kind = if msg.contains("deadlock") {
+                "deadlock"
+            } else if msg.contains("FRAMES") {
+                "order_of_no_serial_execution"
+            } else {
+                "panic"
+            };
+            Err(Fail::new(kind, format!("{c:?}: {msg}")))
+        }
+    }
+}
+
 pub fn property() -> Property {
     Property {
         id: "C02",
@@ -223,6 +327,22 @@ pub fn property() -> Property {
             run: run_frames,
             signature: no_signature,
             essential: &["schedules_explored", "with_println_and_suspend", "pct_scheduler", "bar_removed_while_updated"],
+            workers: default_workers(),
+            decode: None,
+        }),
+        Box::new(Gen::<PlaceCase> {
+            name: "sched_placement",
+            rule: "2-4 drawn bars; one thread removes one of them while another inserts a new bar with insert_from_back(k) or insert(k), under 100 (thorough 1500) random or PCT schedules: the order in the last frame is the order of one of the two serial executions",
+            strategy: |t| {
+                let schedules = t.pick(100u32, 1500);
+                (2u8..=4, 0u8..2, 0u8..5, 0u8..4, any::<u64>(), proptest::option::weighted(0.3, 1u8..4))
+                    .prop_map(move |(bars, how, k, victim, seed, pct_depth)| PlaceCase { bars, how, k, victim, seed, schedules, pct_depth })
+                    .boxed()
+            },
+            cases: |t| t.pick(30, 400),
+            run: run_place,
+            signature: no_signature,
+            essential: &["placement_schedules_explored", "insert_from_back_races_with_remove", "insert_at_index_races_with_remove"],
             workers: default_workers(),
             decode: None,
         })],
